@@ -19,9 +19,9 @@ VERIF = os.path.dirname(os.path.dirname(os.path.abspath(__file__)))
 SEEDED = os.path.join(VERIF, 'seeded')
 REPO = '/repo'
 RELATED = {          # checks to try when the target property's own check misses the change
-    'C01': ['C08', 'C02', 'C09', 'C10', 'C04', 'C05', 'C06'], 'C02': ['C04', 'C07', 'C05', 'C09', 'C10', 'C06', 'C08', 'C14'], 'C03': ['C05', 'C04', 'C06', 'C07', 'C08'],
-    'C04': ['C03', 'C14'], 'C05': ['C03', 'C11'], 'C06': ['C03'], 'C07': ['C03'], 'C08': ['C02', 'C03', 'C01'],
-    'C09': ['C02', 'C10', 'C01', 'C12', 'C13'], 'C10': ['C02', 'C09', 'C01'], 'C11': ['C07', 'C08', 'C10', 'C05'],
+    'C01': ['C08', 'C02', 'C09', 'C10', 'C04', 'C05', 'C06'], 'C02': ['C04', 'C07', 'C05', 'C09', 'C10', 'C06', 'C08', 'C14', 'C01', 'C12'], 'C03': ['C05', 'C04', 'C06', 'C07', 'C08'],
+    'C04': ['C03', 'C14'], 'C05': ['C03', 'C11'], 'C06': ['C03'], 'C07': ['C03'], 'C08': ['C02', 'C03', 'C01', 'C13'],
+    'C09': ['C02', 'C10', 'C01', 'C12', 'C13'], 'C10': ['C02', 'C09', 'C01'], 'C11': ['C07', 'C08', 'C10', 'C05', 'C06'],
     'C12': ['C09', 'C13'], 'C13': ['C09', 'C03'], 'C14': ['C02', 'C04', 'C10'], 'C15': ['C19', 'C18', 'C17'], 'C16': ['C19', 'C18'],
     'C17': ['C19', 'C15'], 'C18': ['C15', 'C17', 'C19'], 'C19': ['C15', 'C16', 'C17', 'C18', 'C08', 'C01'], 'C20': ['C10', 'C03', 'C01'],
 }
